@@ -154,9 +154,13 @@ def polyRem (b : Bound Q) (pg : List (List (Pt Q))) : Rem :=
 def combineRem (l : List Rem) : Rem :=
   if l.any (· == .yes) then .yes else
   if l.all (fun r => match r with | .no _ => true | _ => false) then
-    (match l.find? (fun r => match r with | .no w => w != "empty" && w != "far" | _ => false) with
+    -- name the member that would be the culprit if the result were not nil: a 2-d member first (sliver,
+    -- hole covering the box), then an empty Bound, then plain absence
+    (match l.find? (fun r => match r with | .no w => w != "empty" && w != "far" && w != "empty-bound" | _ => false) with
      | some r => r
-     | none => .no (if l.isEmpty then "empty" else "far")) else
+     | none =>
+       if l.any (fun r => match r with | .no w => w == "empty-bound" | _ => false) then .no "empty-bound" else
+       .no (if l.isEmpty then "empty" else "far")) else
   if l.all (fun r => match r with | .no _ => true | .touch => true | _ => false) then .touch else .unknown
 
 def lineRem (b : Bound Q) (l : List (Pt Q)) : Rem :=
@@ -183,6 +187,8 @@ partial def remOf (b : Bound Q) : Geom Q → Rem
   | .multiPolygon mp => combineRem (mp.map (polyRem b))
   | .bound lo hi =>
     let c : Bound Q := ⟨lo, hi⟩
+    -- an EMPTY Bound argument has no point: the result must be nil (since the orb fix of the former finding
+    -- C08-empty-bound-returns-box there is no recorded exception: a non-nil result is a plain violation)
     if c.isEmpty then .no "empty-bound" else if b.intersects c then .yes else .no "far"
   | .collection gs => combineRem (gs.map (remOf b))
 
